@@ -12,6 +12,8 @@ import (
 	"strconv"
 	"strings"
 	"time"
+
+	"github.com/shpandrak/shpanstream/utils/timeseries/tsquery"
 )
 
 func init() {
@@ -123,7 +125,7 @@ func execTbl(toks []string) (obs string) {
 		if err1 != nil || err2 != nil {
 			return "bad-case"
 		}
-		f, ferr := tsqueryGetCast(dt1, dt2)
+		f, ferr := tsquery.GetCastFuncForDataType(dt1, dt2)
 		if ferr != nil {
 			return "reject"
 		}
@@ -223,7 +225,7 @@ func qDecCell(k int) string {
 
 func qVm(dt string, req bool, unit, cm string) string { return qT("vm", dt, qB01(req), qQ(unit), cm) }
 func qAfm(urn, ounit, cm string) string               { return qT("afm", qQ(urn), qQ(ounit), cm) }
-func qFmText(c qcol, cm string) string                 { return qT("fm", qQ(c.urn), c.dt, qB01(c.req), qQ(c.unit), cm) }
+func qFmText(c qcol, cm string) string                { return qT("fm", qQ(c.urn), c.dt, qB01(c.req), qQ(c.unit), cm) }
 
 // ---------------------------------------------------------------------------------------------------------------
 // random generator (phase 2), type-directed
@@ -243,7 +245,8 @@ type qgen struct {
 	allTs      []int64
 	nonconf    bool // a non-conforming table is still to be injected
 	didNonconf bool
-	tw         bool // generating a tw pipeline: override is frequent
+	tw         bool  // generating a tw pipeline: override is frequent
+	grid       []int // the grid points most tables of this case draw their row keys from (so joins find partners)
 }
 
 func (g *qgen) reset() {
@@ -253,6 +256,15 @@ func (g *qgen) reset() {
 		j := g.r.Intn(i + 1)
 		g.urnSeq[i], g.urnSeq[j] = g.urnSeq[j], g.urnSeq[i]
 	}
+	g.grid = g.grid[:0]
+	for k := 0; k < 13; k++ {
+		g.grid = append(g.grid, k)
+	}
+	for i := 0; i < 6; i++ {
+		j := i + g.r.Intn(13-i)
+		g.grid[i], g.grid[j] = g.grid[j], g.grid[i]
+	}
+	g.grid = g.grid[:6]
 }
 
 func (g *qgen) fresh() string {
@@ -265,11 +277,21 @@ func (g *qgen) fresh() string {
 }
 
 func (g *qgen) fire() bool {
-	if g.mut > 0 && g.r.Intn(6) == 0 {
+	return g.fireN(5)
+}
+
+// fireN spends the mutation budget with probability 1/n.
+func (g *qgen) fireN(n int) bool {
+	if g.mut > 0 && g.r.Intn(n) == 0 {
 		g.mut--
 		return true
 	}
 	return false
+}
+
+// fireRare: a mutation of the INPUT tables (refused before anything is planned), kept infrequent.
+func (g *qgen) fireRare() bool {
+	return g.fireN(40)
 }
 
 func (g *qgen) pick(l []string) string { return l[g.r.Intn(len(l))] }
@@ -291,6 +313,14 @@ func (g *qgen) weighted(w ...int) int {
 }
 
 func (g *qgen) anyDt() string { return qDts[g.weighted(30, 25, 15, 20, 10)] }
+
+// prefDt prefers the data type of one of the columns in scope, so that refs are usable often.
+func (g *qgen) prefDt(env []qcol) string {
+	if len(env) > 0 && g.r.Intn(100) < 55 {
+		return env[g.r.Intn(len(env))].dt
+	}
+	return g.anyDt()
+}
 
 func (g *qgen) otherDt(dt string) string {
 	for {
@@ -344,6 +374,9 @@ func (g *qgen) cm3() string { // nil / empty / non-empty with equal weight
 	return "( cm 'k 'w 'z 'q )"
 }
 
+// nrows: 0..5 rows, the empty table kept infrequent.
+func (g *qgen) nrows() int { return g.weighted(6, 12, 20, 22, 22, 18) }
+
 func (g *qgen) depth() int { return g.weighted(25, 35, 25, 15) }
 
 func (g *qgen) intCell() string {
@@ -354,7 +387,7 @@ func (g *qgen) intCell() string {
 		return "i:" + strconv.FormatInt(math.MaxInt64, 10)
 	case 2:
 		return "i:" + strconv.FormatInt(1<<53+1, 10)
-	case 3, 4, 5:
+	case 3, 4, 5, 6, 7:
 		return "i:0"
 	}
 	return "i:" + strconv.Itoa(g.r.Range(-20, 20))
@@ -381,15 +414,18 @@ func (g *qgen) cell(dt string) string {
 
 // tsList returns n strictly increasing row keys on the grid k*1e9 (+5e8 when half), k in 0..12.
 func (g *qgen) tsList(n int, half bool) []int64 {
-	ks := make([]int, 13)
-	for i := range ks {
-		ks[i] = i
+	used := map[int]bool{}
+	ks := make([]int, 0, n)
+	for len(ks) < n {
+		k := g.r.Intn(13)
+		if len(g.grid) > 0 && g.r.Intn(10) < 8 {
+			k = g.grid[g.r.Intn(len(g.grid))]
+		}
+		if !used[k] {
+			used[k] = true
+			ks = append(ks, k)
+		}
 	}
-	for i := 0; i < n; i++ {
-		j := i + g.r.Intn(13-i)
-		ks[i], ks[j] = ks[j], ks[i]
-	}
-	ks = ks[:n]
 	sort.Ints(ks)
 	out := make([]int64, n)
 	for i, k := range ks {
@@ -461,7 +497,7 @@ func (g *qgen) rstatic(maxCols int, forcedUrn string) (string, []qcol) {
 		cols[i] = g.randCol(urn)
 	}
 	textCols := append([]qcol(nil), cols...)
-	if g.fire() {
+	if g.fireRare() {
 		switch g.r.Intn(4) {
 		case 0: // duplicate urn in the metas
 			if n >= 2 {
@@ -480,14 +516,14 @@ func (g *qgen) rstatic(maxCols int, forcedUrn string) (string, []qcol) {
 	for _, c := range textCols {
 		metas = append(metas, qFmText(c, g.cm()))
 	}
-	tss := g.tsList(g.r.Intn(6), false)
+	tss := g.tsList(g.nrows(), false)
 	return qT("rstatic", qT(metas...), g.tableRows(cols, tss)), cols
 }
 
 // dstaticCol generates a datasource table for the given column.
 func (g *qgen) dstaticCol(c qcol, nrows int, half bool, cm string) string {
 	tc := c
-	if g.fire() {
+	if g.fireRare() {
 		if g.r.Bool() {
 			tc.urn = ""
 		} else {
@@ -500,7 +536,7 @@ func (g *qgen) dstaticCol(c qcol, nrows int, half bool, cm string) string {
 
 func (g *qgen) dstatic() (string, qcol) {
 	c := g.randCol(g.fresh())
-	return g.dstaticCol(c, g.r.Intn(6), false, g.cm()), c
+	return g.dstaticCol(c, g.nrows(), false, g.cm()), c
 }
 
 // ---- values
@@ -539,7 +575,7 @@ func (g *qgen) constant(dt string, wreq int, wunit *string) (string, qvt) {
 		default:
 			vdt = "bogus"
 		}
-	} else if cell != "nil" && g.r.Intn(20) == 0 {
+	} else if cell != "nil" && g.r.Intn(40) == 0 {
 		// convertible (or not) payload of another Go type; never a non-string payload under str
 		// (fmt "%s" of a non-string prints parentheses / spaces, which the line protocol cannot carry)
 		switch dt {
@@ -646,6 +682,9 @@ func (g *qgen) val(env []qcol, dt string, wreq int, wunit *string, depth int) (s
 			break
 		}
 		odt := []string{"int", "dec", "str", "bool"}[g.weighted(35, 30, 15, 20)]
+		if p := g.prefDt(env); p != "ts" {
+			odt = p
+		}
 		ops := qCops[:2]
 		if odt == "int" || odt == "dec" {
 			ops = qCops[:6]
@@ -701,9 +740,9 @@ func (g *qgen) val(env []qcol, dt string, wreq int, wunit *string, depth int) (s
 		var sdt string
 		switch dt {
 		case "int":
-			sdt = []string{"dec", "str", "int"}[g.weighted(65, 20, 15)]
+			sdt = []string{"dec", "str", "int"}[g.weighted(55, 30, 15)]
 		case "dec":
-			sdt = []string{"int", "str", "dec"}[g.weighted(65, 20, 15)]
+			sdt = []string{"int", "str", "dec"}[g.weighted(55, 30, 15)]
 		case "str":
 			sdt = []string{"int", "dec", "str"}[g.weighted(45, 45, 10)]
 		default:
@@ -723,9 +762,10 @@ func (g *qgen) val(env []qcol, dt string, wreq int, wunit *string, depth int) (s
 		a, ta := g.val(env, sdt, wreq, wunit, depth-1)
 		return qT("cast", a, tgt), qvt{dt, ta.req, ta.unit}
 	case 5: // num
-		ops := qBops[:4]
+		// div (and mod for integers) twice as likely as the others: division by zero must occur
+		ops := []string{"add", "sub", "mul", "div", "div"}
 		if dt == "int" {
-			ops = qBops[:5]
+			ops = []string{"add", "sub", "mul", "div", "div", "mod", "mod"}
 		}
 		op := g.pick(ops)
 		if g.fire() {
@@ -743,6 +783,14 @@ func (g *qgen) val(env []qcol, dt string, wreq int, wunit *string, depth int) (s
 			bu = &u
 		}
 		b, tb := g.val(env, dt, r2, bu, depth-1)
+		if (op == "div" || op == "mod") && r2 != 2 && g.r.Intn(5) == 0 { // an explicit zero divisor
+			zero := "i:0"
+			if dt == "dec" {
+				zero = qDecCell(0)
+			}
+			tb = qvt{dt, true, ta.unit}
+			b = qT("const", qVm(dt, true, ta.unit, "nil"), zero)
+		}
 		ru := ""
 		if ta.unit == tb.unit {
 			ru = ta.unit
@@ -845,7 +893,7 @@ func (g *qgen) reduce(env []qcol, dt string, wunit *string) (string, qvt, bool) 
 		urns = append(urns, urns[0])
 	}
 	useAll := !dup && len(others) == 0 && k == len(group) && len(group) == len(env) && g.r.Bool()
-	if g.fire() {
+	if g.fireN(2) {
 		useAll = false
 		switch g.r.Intn(5) {
 		case 0:
@@ -900,10 +948,10 @@ func (g *qgen) rfChain(schema []qcol, n int) ([]string, []qcol) {
 		}
 		switch g.weighted(30, 10, 10, 12, 8, 15, 15) {
 		case 0: // append
-			v, t := g.val(schema, "", 0, nil, g.depth())
+			v, t := g.val(schema, g.prefDt(schema), 0, nil, g.depth())
 			urn, ou := g.fresh(), g.ounit()
 			if g.fire() {
-				if g.r.Bool() {
+				if g.r.Intn(4) > 0 {
 					urn = schema[g.r.Intn(len(schema))].urn
 				} else {
 					urn = ""
@@ -932,10 +980,6 @@ func (g *qgen) rfChain(schema []qcol, n int) ([]string, []qcol) {
 				continue
 			}
 			if len(schema) < 2 {
-				i--
-				if g.r.Intn(3) == 0 {
-					i++
-				}
 				continue
 			}
 			for _, c := range schema {
@@ -973,7 +1017,7 @@ func (g *qgen) rfChain(schema []qcol, n int) ([]string, []qcol) {
 			var sel []qcol
 			parts := []string{"select"}
 			for j := 0; j < k; j++ {
-				v, t := g.val(env, "", 0, nil, g.depth())
+				v, t := g.val(env, g.prefDt(env), 0, nil, g.depth())
 				urn, ou := g.fresh(), g.ounit()
 				if dupl && j == k-1 {
 					urn = sel[0].urn
@@ -991,16 +1035,16 @@ func (g *qgen) rfChain(schema []qcol, n int) ([]string, []qcol) {
 		case 3: // replace
 			idx := g.r.Intn(len(schema))
 			target := schema[idx].urn
-			v, t := g.val(schema, "", 0, nil, g.depth())
+			v, t := g.val(schema, g.prefDt(schema), 0, nil, g.depth())
 			urn, ou := target, g.ounit()
 			if g.r.Bool() {
 				urn = g.fresh()
 			}
-			if g.fire() {
-				switch g.r.Intn(3) {
-				case 0:
+			if g.fireN(3) {
+				switch g.r.Intn(5) {
+				case 0, 1:
 					target = "zz"
-				case 1:
+				case 2:
 					urn = ""
 				default: // rename onto another existing field
 					urn = schema[(idx+1)%len(schema)].urn
@@ -1012,12 +1056,12 @@ func (g *qgen) rfChain(schema []qcol, n int) ([]string, []qcol) {
 			out = append(out, qT("replace", qQ(target), v, qAfm(urn, ou, g.cm())))
 			schema[idx] = qcol{urn, t.dt, t.req, t.unit}
 		case 4: // single
-			v, t := g.val(schema, "", 0, nil, g.depth())
+			v, t := g.val(schema, g.prefDt(schema), 0, nil, g.depth())
 			urn, ou := g.fresh(), g.ounit()
 			if g.r.Intn(3) == 0 {
 				urn = schema[g.r.Intn(len(schema))].urn
 			}
-			if g.fire() {
+			if g.fireN(20) {
 				urn = ""
 			}
 			if ou != "" {
@@ -1042,10 +1086,10 @@ func (g *qgen) rfChain(schema []qcol, n int) ([]string, []qcol) {
 				nun = qQ(c.unit)
 			}
 			if g.fire() {
-				switch g.r.Intn(3) {
-				case 0:
+				switch g.r.Intn(6) {
+				case 0, 1:
 					field = "zz"
-				case 1:
+				case 2:
 					nu = "'"
 				default:
 					nu = qQ(schema[(idx+1)%len(schema)].urn)
@@ -1077,12 +1121,12 @@ func (g *qgen) dfChain(c qcol, n int, allowFval bool) ([]string, qcol) {
 		}
 		switch g.weighted(wf, ww, wo) {
 		case 0:
-			v, t := g.val([]qcol{c}, "", 0, nil, g.depth())
+			v, t := g.val([]qcol{c}, g.prefDt([]qcol{c}), 0, nil, g.depth())
 			urn, ou := c.urn, g.ounit()
 			if g.r.Bool() {
 				urn = g.fresh()
 			}
-			if g.fire() {
+			if g.fireN(20) {
 				urn = ""
 			}
 			if ou != "" {
@@ -1106,7 +1150,7 @@ func (g *qgen) dfChain(c qcol, n int, allowFval bool) ([]string, qcol) {
 				c.unit = g.pick(qUnits)
 				nun = qQ(c.unit)
 			}
-			if g.fire() {
+			if g.fireN(20) {
 				nu = "'"
 			}
 			out = append(out, qT("override", nu, nun, g.cm3()))
@@ -1178,13 +1222,13 @@ func (g *qgen) genReduction() (string, qcol) {
 	dt := g.pick([]string{"int", "dec"})
 	rt := g.pick(qRts[:5])
 	period := int64(1_000_000_000)
-	switch g.weighted(75, 15, 10) {
+	switch g.weighted(80, 16, 4) {
 	case 1:
 		period = 2_000_000_000
 	case 2:
 		period = 0
 	}
-	n := g.weighted(15, 30, 35, 20)
+	n := g.weighted(10, 30, 38, 22)
 	urn, ou := g.fresh(), g.ounit()
 	fb := "none"
 	fbv := qvt{}
@@ -1237,7 +1281,7 @@ func (g *qgen) genReduction() (string, qcol) {
 		} else if c.unit != unit {
 			allSame = false
 		}
-		s := g.dstaticCol(c, g.r.Intn(6), half && g.r.Bool(), g.cm())
+		s := g.dstaticCol(c, g.nrows(), half && g.r.Bool(), g.cm())
 		if g.r.Intn(4) == 0 {
 			fs, _ := g.dfChain(c, 1, false)
 			s = qT(append([]string{"dfilt", s}, fs...)...)
@@ -1278,7 +1322,7 @@ func (g *qgen) genD(depth int) (string, qcol) {
 		}
 		c := schema[g.r.Intn(len(schema))]
 		urn := c.urn
-		if g.fire() {
+		if g.fireN(12) {
 			urn = "zz"
 		}
 		return qT("tods", r, qQ(urn)), c
@@ -1287,11 +1331,20 @@ func (g *qgen) genD(depth int) (string, qcol) {
 }
 
 func (g *qgen) fromTo() (int64, int64) {
-	point := func() int64 {
+	// boundary points: a row key of the case or that +-1ns; half of the time the extreme row key (the first one for
+	// `from`, the last one for `to`) so that the half-open boundaries are hit while most rows stay inside
+	point := func(wantMax bool) int64 {
 		if len(g.allTs) == 0 {
 			return int64(g.r.Intn(13)) * 1_000_000_000
 		}
 		t := g.allTs[g.r.Intn(len(g.allTs))]
+		if g.r.Bool() {
+			for _, x := range g.allTs {
+				if (wantMax && x > t) || (!wantMax && x < t) {
+					t = x
+				}
+			}
+		}
 		switch g.r.Intn(3) {
 		case 0:
 			return t
@@ -1301,21 +1354,21 @@ func (g *qgen) fromTo() (int64, int64) {
 		return t + 1
 	}
 	var from, to int64
-	switch g.weighted(40, 10, 50) {
+	switch g.weighted(60, 8, 32) {
 	case 0:
 		from = qFarBelow
 	case 1:
 		from = 0
 	default:
-		from = point()
+		from = point(false)
 	}
-	switch g.weighted(50, 5, 45) {
+	switch g.weighted(66, 2, 32) {
 	case 0:
 		to = qFarAbove
 	case 1:
 		to = 0
 	default:
-		to = point()
+		to = point(true)
 	}
 	return from, to
 }
@@ -1323,12 +1376,12 @@ func (g *qgen) fromTo() (int64, int64) {
 // randomQ generates one random `q rep|ds` case; the bool tells whether a non-conforming table was injected.
 func (g *qgen) randomQ() (string, bool) {
 	g.reset()
-	if g.r.Intn(100) < 62 {
+	if g.r.Intn(100) < 72 {
 		g.mut = 1
 	}
 	g.nonconf = g.r.Intn(50) == 0
 	mode := "exact"
-	depth := g.weighted(10, 45, 30, 15)
+	depth := g.weighted(4, 46, 33, 17)
 	var kind, tree string
 	if g.r.Bool() {
 		kind = "rep"
@@ -1385,6 +1438,9 @@ func (e *qEmitter) emit(caseText string, forceN bool) {
 	if inputFail {
 		key = "input-" + key
 	}
+	if strings.HasPrefix(caseText, "tbl ") {
+		key, nontrivial = "tbl", true
+	}
 	e.st.add(key)
 	e.c.Raw(nontrivial && !inputFail && !forceN, caseText, obs)
 }
@@ -1418,7 +1474,7 @@ func qP1Cols() []qP1Col {
 		{qcol{"rd", "dec", true, "kb"}, "nil", [4]string{d(12), d(-18), d(32), d(4)}},
 		{qcol{"od", "dec", false, "kb"}, "nil", [4]string{d(4), "nil", d(0), "nil"}},
 		{qcol{"rs", "str", true, ""}, "( cm 'k 'v )", [4]string{"'12", "'abc", "'3.5", "'-7"}},
-		{qcol{"os", "str", false, ""}, "nil", [4]string{"'abc", "nil", "'12", "nil"}},
+		{qcol{"os", "str", false, ""}, "nil", [4]string{"'12", "nil", "'-7", "nil"}},
 		{qcol{"rb", "bool", true, ""}, "nil", [4]string{"b:1", "b:0", "b:1", "b:0"}},
 		{qcol{"ob", "bool", false, ""}, "nil", [4]string{"b:0", "nil", "b:1", "nil"}},
 		{qcol{"rt", "ts", true, ""}, "nil", [4]string{"t:1000000000", "t:2000000000", "t:0", "t:4000000000"}},
@@ -1474,13 +1530,13 @@ func qv2Join(head string, pre []string, kids []qv2, post []string) qv2 {
 	return out
 }
 
-func qv2Cast(a qv2, dt string) qv2        { return qv2Join("cast", nil, []qv2{a}, []string{dt}) }
-func qv2Cond(op string, a, b qv2) qv2     { return qv2Join("cond", []string{op}, []qv2{a, b}, nil) }
-func qv2Num(op string, a, b qv2) qv2      { return qv2Join("num", []string{op}, []qv2{a, b}, nil) }
-func qv2Un(op string, a qv2) qv2          { return qv2Join("un", []string{op}, []qv2{a}, nil) }
-func qv2Logic(op string, a, b qv2) qv2    { return qv2Join("logic", []string{op}, []qv2{a, b}, nil) }
-func qv2Nvl(a, b qv2) qv2                 { return qv2Join("nvl", nil, []qv2{a, b}, nil) }
-func qv2Sel(s, a, b qv2) qv2              { return qv2Join("sel", nil, []qv2{s, a, b}, nil) }
+func qv2Cast(a qv2, dt string) qv2     { return qv2Join("cast", nil, []qv2{a}, []string{dt}) }
+func qv2Cond(op string, a, b qv2) qv2  { return qv2Join("cond", []string{op}, []qv2{a, b}, nil) }
+func qv2Num(op string, a, b qv2) qv2   { return qv2Join("num", []string{op}, []qv2{a, b}, nil) }
+func qv2Un(op string, a qv2) qv2       { return qv2Join("un", []string{op}, []qv2{a}, nil) }
+func qv2Logic(op string, a, b qv2) qv2 { return qv2Join("logic", []string{op}, []qv2{a, b}, nil) }
+func qv2Nvl(a, b qv2) qv2              { return qv2Join("nvl", nil, []qv2{a, b}, nil) }
+func qv2Sel(s, a, b qv2) qv2           { return qv2Join("sel", nil, []qv2{s, a, b}, nil) }
 func qv2Reduce(rt string, urns ...string) qv2 {
 	parts := []string{"reduce", rt}
 	parts = append(parts, urns...)
@@ -1491,10 +1547,10 @@ type qP1 struct {
 	cols    []qP1Col
 	byUrn   map[string]qP1Col
 	t0      string
-	refs    []qv2 // the ten ref leaves
-	leaves  []qv2 // refs + constants
-	emitRep func(caseText string)                   // (a) form
-	emitDs  func(mode string, dsTree string)        // (b) form
+	refs    []qv2                            // the ten ref leaves
+	leaves  []qv2                            // refs + constants
+	emitRep func(caseText string)            // (a) form
+	emitDs  func(mode string, dsTree string) // (b) form
 }
 
 func newQP1() *qP1 {
